@@ -125,7 +125,7 @@ class FunctionEffects(ast.NodeVisitor):
             for e in t.elts:
                 self._bind(e, None)
 
-    def classify(self, base):
+    def classify(self, base, _depth=0):
         if base is None:
             return "borrowed"
         if base in ("self", "cls") and base in self.params:
@@ -136,6 +136,13 @@ class FunctionEffects(ast.NodeVisitor):
             vals = self.assigned[base]
             if vals and all(v is not None and _is_alloc(v) for v in vals):
                 return "fresh"
+            # an alias of other names (order = _coordinate_order): as fresh / global as what it aliases
+            if _depth < 3 and vals and all(isinstance(v, ast.Name) and v.id != base for v in vals):
+                cs = {self.classify(v.id, _depth + 1) for v in vals}
+                if cs == {"fresh"}:
+                    return "fresh"
+                if cs == {"global"}:
+                    return "global"
             return "borrowed"
         if base in self.params:
             return "borrowed"
@@ -194,6 +201,16 @@ class FunctionEffects(ast.NodeVisitor):
 
     def visit_AugAssign(self, node):
         self._targets(node.target, node, "aug")
+        t = node.target
+        if isinstance(t, ast.Name) and t.id not in self.globals_declared:
+            # `name op= value` mutates in place when name is bound to a list / ndarray: a store unless the name is fresh here
+            vals = self.assigned.get(t.id, [])
+            risky = t.id in self.params or any(v is not None and not _is_alloc(v) for v in vals)
+            if risky and t.id not in ("self", "cls"):
+                # loop counters and names bound only to literals / fresh values cannot alias anything
+                c = self.classify(t.id)
+                if c != "fresh":
+                    self.stores.append(Store(self.file, self.qual, node.lineno, "aug-name", t.id, t.id, c if c != "self" else "borrowed", self.owner))
         self.generic_visit(node)
 
     def visit_Delete(self, node):
